@@ -50,6 +50,6 @@ InRangeMem == s.st # "undef" => \A ad \in DOMAIN s.mem : InMem(ad)
 Monotone == [][/\ Len(s.out) <= Len(s'.out) /\ SubSeq(s'.out, 1, Len(s.out)) = s.out
                /\ \A c \in 1..9 : s.ip[c] <= s'.ip[c]
                /\ (s.st # "run" => s' = s)]_vars
-\* exactly one instruction per step
-OneStep == [][s'.n = s.n + 1]_vars
+\* exactly one instruction per step (a fetch from outside the memory executes nothing: the machine is undefined where it stands)
+OneStep == [][(s'.st = "undef" /\ s'.why = "fetch" /\ s'.n = s.n) \/ s'.n = s.n + 1]_vars
 =============================================================================
